@@ -441,6 +441,45 @@ def convergence_oracle(args):
     return None
 
 
+def short_run_oracle(args):
+    """the shortest runs (one and two steps), both orders, with and without intermediate sampling, both evolution modes: final state
+    and final observables against exp(-iHT)"""
+    from mqt.yaqs import simulator
+    from mqt.yaqs.core.data_structures.networks import MPS
+    from mqt.yaqs.core.data_structures.simulation_parameters import AnalogSimParams, EvolutionMode, Observable
+
+    rng = np.random.default_rng(args["seed"])
+    L, dt = args["L"], 0.05
+    H, hd = ham(args["ham"], L, rng)
+    v0 = dense.mps_dense(MPS(L, state=args["state"]))
+    v0 /= np.linalg.norm(v0)
+    ops = [dense.op_on(L, {i: dense.PAULI[p]}) for i in range(L) for p in "xz"]
+    for mode in ("TDVP", "BUG"):
+        for order in (1, 2):
+            for sample in (True, False):
+                for steps in (1, 2):
+                    T = steps * dt
+                    obs = [Observable(p, i) for i in range(L) for p in "xz"]
+                    par = AnalogSimParams(obs, elapsed_time=T, dt=dt, order=order, sample_timesteps=sample, get_state=True, show_progress=False,
+                                          threshold=1e-13, max_bond_dim=64, evolution_mode=EvolutionMode.BUG if mode == "BUG" else EvolutionMode.TDVP)
+                    tag = f"{mode} order {order}, {steps} step(s) of dt={dt}, sample_timesteps={sample}"
+                    with common.time_limit(120):
+                        simulator.run(MPS(L, state=args["state"]), H, par, None, parallel=False)
+                    if par.output_state is None:
+                        return f"{tag}: no final state was produced although get_state=True"
+                    ref = dense.evolve(hd, v0, T)
+                    tol = (0.5 * dt**2 if mode == "TDVP" else 2 * dt) * max(1.0, np.linalg.norm(hd, 2))
+                    err = dense.up_to_phase(dense.mps_dense(par.output_state), ref)
+                    if err > tol:
+                        return f"{tag}: final state is {err:.3e} away from exp(-iHT)|psi0> (allowed {tol:.1e})"
+                    got = np.array([np.real(np.ravel(o.results))[-1] for o in obs])
+                    want = np.array([dense.expect(ref, o) for o in ops])
+                    if np.max(np.abs(got - want)) > 4 * tol:
+                        k = int(np.argmax(np.abs(got - want)))
+                        return f"{tag}: reported <{obs[k].gate.name}_{obs[k].sites}>(T) = {got[k]:+.6f}, exp(-iHT) gives {want[k]:+.6f}"
+    return None
+
+
 def qudit_oracle(args):
     """chains of three-level sites (Bose-Hubbard, transmon-resonator chains) with the default, unconstrained bond dimension: norm, energy and
     final state vs exp(-iHT) of the operator's own dense matrix (site 0 leftmost, as C07 establishes for the builders)"""
@@ -508,6 +547,19 @@ def search(ctx):
     for k in range(ctx.scale(1, 4)):
         plan.append(dict(seed=int(ctx.rng.integers(0, 2**31)), L=8, ham="pauli", state=["Neel", "x+"][k % 2], mode="TDVP", order=1 + k % 2, T=1.2, wide=True))
         ctx.count("wide_chains")
+    for k in range(ctx.scale(1, 6)):
+        a = dict(seed=int(ctx.rng.integers(0, 2**31)), L=int(ctx.rng.integers(2, 5)), ham=["ising", "heisenberg", "pauli"][k % 3], state=["wall", "x+", "Neel"][k % 3])
+        try:
+            why = short_run_oracle(a)
+        except common.HardTimeout:
+            ctx.notes.append("short-run oracle timed out")
+            continue
+        except Exception as e:  # noqa: BLE001
+            why = f"simulator.run raised {type(e).__name__}: {e}"
+        ctx.case(nontrivial_key=("short", k))
+        ctx.count("shortest_runs")
+        if why:
+            ctx.violation("short-run", why, {"oracle": "short", "args": a})
     for k, (hamk, L, start) in enumerate([("bose", 4, "1010"), ("transmon", 3, "101"), ("bose", 3, "201"), ("transmon", 4, "1010")][: 3 if ctx.quick else 4]):
         a = dict(ham=hamk, L=L, start=start, order=1 + k % 2, mode="TDVP" if k != 2 else "BUG")
         if a["mode"] == "BUG":
@@ -544,6 +596,8 @@ def search(ctx):
 
 def replay(ctx, data):
     rp = data.get("replay", data)
+    if rp.get("oracle") == "short":
+        return short_run_oracle(rp["args"])
     if rp.get("oracle") == "conv":
         return convergence_oracle(rp["args"])
     if rp.get("oracle") == "qudit":
